@@ -48,6 +48,8 @@ func main() {
 		code = scenarioHostile()
 	case "stress":
 		code = scenarioStress()
+	case "twin":
+		code = scenarioTwin()
 	case "pintime":
 		code = scenarioPinTime()
 	default:
